@@ -778,6 +778,11 @@ func uint64ToFloat(x uint64) (float64, error) {
 func toDecimal64List(val interface{}) ([]float64, error) {
 	switch x := val.(type) {
 	case []float64:
+		for _, f := range x {
+			if _, err := finite(f); err != nil {
+				return nil, err
+			}
+		}
 		return x, nil
 	case []interface{}:
 		l := make([]float64, len(x))
